@@ -182,6 +182,27 @@ def insertionSort (lt : α → α → Bool) (l : List α) : List α :=
 
 def sortTxs (f : Flags) (txs : List Tx) : List Tx := insertionSort (txLess f) txs
 
+/-- every earlier element is `Less` than every later one and not vice versa: on such a list
+    `Less` is a strict total order, and *any* correct comparison sort returns this list -/
+def strictSorted (lt : α → α → Bool) : List α → Bool
+  | [] => true
+  | a :: l => l.all (fun b => lt a b && !lt b a) && strictSorted lt l
+
+/-- what `sort.Sort` returns, as far as the model can say: insertion sort for ≤ 12 elements (Go's
+    own algorithm there); for longer lists only when `Less` is a strict total order on the list
+    (then the result is unique, see `sort_result_unique_total`); `none` = not modelled (pdqsort on a
+    non-total `Less`). -/
+def sortTxsAny (f : Flags) (txs : List Tx) : Option (List Tx) :=
+  let out := sortTxs f txs
+  if txs.length ≤ 12 then some out
+  else if strictSorted (txLess f) out then some out else none
+
+/-- Go's post-condition of `sort.Sort` (`sort.IsSorted`): no adjacent inversion -/
+def noAdjInv (lt : α → α → Bool) : List α → Prop
+  | [] => True
+  | [_] => True
+  | a :: b :: l => lt b a = false ∧ noAdjInv lt (b :: l)
+
 /-! ## the per transaction loop -/
 
 /-- what an uninterpreted executor (EVM, miner ops) returns: new ledger, success, message,
